@@ -104,6 +104,10 @@ pub enum HookWho {
     Collector,
     /// other native account i
     Other(u8),
+    /// the staker's / the collector's native address used verbatim as a local sender (no ibc-hooks
+    /// derivation): never the accepted account, also when both chains share a bech32 prefix
+    StakerDirect,
+    CollectorDirect,
 }
 
 #[derive(Clone, Debug, PartialEq, Serialize, Deserialize)]
@@ -482,8 +486,8 @@ pub fn op_strategy(p: &Profile) -> BoxedStrategy<Op> {
     let align = || prop_oneof![3 => Just(0u8), 2 => Just(1u8), 4 => Just(2u8), 2 => Just(3u8)];
     let submit = (caller(p), align()).prop_map(|(user, align)| Op::SubmitBatch { user, align });
     let withdraw = (caller(p), 0u8..12).prop_map(|(user, batch)| Op::Withdraw { user, batch });
-    let who = || prop_oneof![12 => Just(HookWho::Staker), 2 => Just(HookWho::Collector), 1 => (0u8..3).prop_map(HookWho::Other)];
-    let who_r = || prop_oneof![2 => Just(HookWho::Staker), 12 => Just(HookWho::Collector), 1 => (0u8..3).prop_map(HookWho::Other)];
+    let who = || prop_oneof![12 => Just(HookWho::Staker), 2 => Just(HookWho::Collector), 1 => (0u8..3).prop_map(HookWho::Other), 1 => Just(HookWho::StakerDirect)];
+    let who_r = || prop_oneof![2 => Just(HookWho::Staker), 12 => Just(HookWho::Collector), 1 => (0u8..3).prop_map(HookWho::Other), 1 => Just(HookWho::CollectorDirect)];
     let delamt = prop_oneof![
         6 => Just(DelAmt::Exact),
         2 => (1u8..8).prop_map(DelAmt::Short),
